@@ -9,18 +9,11 @@ from . import dg_rules as dg
 from . import core_folds as cf
 from .common import is_name, params, returns_of, single_return
 
-EXPLANATION = (
-    "Static rules on core/datagroup.py and core/dataset.py: (R1) __iter__, __len__, __delitem__, keys, items, values, get, "
-    "pop, clear of both classes delegate to the same-named dict method of the backing dict with the same arguments "
-    "(Dataset.clear also clears meta); (R2) gates dominate stores: Datagroup's shape gate (as C06.R1/R2), Dataset's "
-    "isinstance(value, Datagroup) test + TypeError precede the store, name and parent are set on every accepted insertion, "
-    "constructors and update insert through __setitem__, single writer of each backing dict; (R3) Datagroup.__eq__ is "
-    "evaluated over abstract cases (key sets equal/different; per member: no / some / all elements differ; Vector members "
-    "differing by a norm-preserving change) with a model of osyris truthiness (a 0-d Array is falsy; np.any on an Array "
-    "returns a 0-d Array) and must return the content-equality verdict in each.")
-NOT_DECIDED = "insertion order (Python dict); the element-wise comparison values themselves (numpy after unit conversion)"
-TRUSTED = ("CPython ast", "Python dict semantics", "model of Array truthiness/iteration (core/array.py __len__)")
+EXPLANATION = '(R1) Datagroup and Dataset interpreted over finite histories of set, delete, pop, get, update, clear, copy, iteration, membership, len: dictionary behaviour, shape/type gates, every stored item renamed (and parented); (R2) indexing/sorting keep members aligned and named; (R3) Datagroup.__eq__ over abstract cases: equal iff same keys and no element of any member differs (Vectors by components, not by norm); (R4) Array.to exact (shared).'
+NOT_DECIDED = "numpy's element-wise comparison; insertion order of Python dicts (language guarantee)"
+TRUSTED = ('CPython ast', 'Python dict semantics', 'the interpreter sa/models.py (ModelEval) and its library models')
 
+TECHNIQUE = 'static analysis: abstract interpretation of the container classes over finite operation histories; abstract-case evaluation of equality'
 
 def r1_delegation(run, tree):
     run.rule("C20.R1", "dictionary protocol of Datagroup and Dataset over finite histories (set, delete, pop, get, update, clear, copy, "
